@@ -243,10 +243,10 @@ def printProgram (cs : List Ch) : SDoc := intersperse (cs.map (·.2)) hardline
 /-! ## Declarations -/
 
 /-- `print_function_decl`: every branch of the loop appends the child's document (`emit_token_with_trivia` for the keyword, the name
-and `->`, `cst_to_doc` for the rest); only the keyword is followed by a space.  (`seen_fn` / `seen_name` select between branches that
-do the same.) -/
+and `->`, `cst_to_doc` for the rest); only the keyword — `fn`, or `macro` for a macro declaration — is followed by a space.
+(`seen_fn` / `seen_name` select between branches that do the same.) -/
 def printFunctionDecl (c : Ctx) (cs : List Ch) : SDoc :=
-  cs.foldl (fun r ch => if tokKind c ch.1 == some .Function then r ++ ch.2 ++ sp else r ++ ch.2) nil
+  cs.foldl (fun r ch => if tokKind c ch.1 == some .Function || tokKind c ch.1 == some .Macro then r ++ ch.2 ++ sp else r ++ ch.2) nil
 
 /-- locals of `print_let_decl` / `print_letrec_decl` -/
 structure LetSt where
@@ -357,14 +357,23 @@ def lamStep (c : Ctx) (st : LamSt) (ch : Ch) : LamSt :=
 def printLambdaExpr (c : Ctx) (cs : List Ch) : SDoc := grp (cs.foldl (lamStep c) {}).result
 
 mutual
-/-- the `starts_with_paren` loop of `print_if_expr`: kind of the first token of the subtree is `(` -/
-def startsWithParen (c : Ctx) : Green → Bool
-  | .token i _ => c.kind i == .ParenBegin
-  | .node _ cs => startsWithParenL c cs
-def startsWithParenL (c : Ctx) : List Green → Bool
-  | [] => false
-  | g :: _ => startsWithParen c g
+/-- `first_token_kind`: the kind of the first token of a subtree (the loop follows the FIRST child only) -/
+def firstTokenKind (c : Ctx) : Green → Option Kind
+  | .token i _ => some (c.kind i)
+  | .node _ cs => firstTokenKindL c cs
+def firstTokenKindL (c : Ctx) : List Green → Option Kind
+  | [] => none
+  | g :: _ => firstTokenKind c g
 end
+
+/-- `continues_condition` of `print_if_expr`: the branch starts with a token that the parser would read as a postfix operator of
+the condition if it stood on the condition's line -/
+def continuesCondition (c : Ctx) (g : Green) : Bool :=
+  match firstTokenKind c g with
+  | some .ParenBegin => true
+  | some .ArrayBegin => true
+  | some .Dot => true
+  | _ => false
 
 structure IfSt where
   result : SDoc := nil
@@ -379,9 +388,11 @@ def ifStep (c : Ctx) (st : IfSt) (ch : Ch) : IfSt :=
   if k == some .If then { st with result := st.result ++ ch.2, seenIf := true }
   else if k == some .Else then { st with result := st.result ++ softline ++ ch.2, seenElse := true }
   else if !st.seenCond && st.seenIf then
-    let r := if !startsWithParen c ch.1 then st.result ++ sp else st.result
+    let r := if !(firstTokenKind c ch.1 == some .ParenBegin) then st.result ++ sp else st.result
     { st with result := r ++ grp ch.2, seenCond := true }
-  else if !st.seenThen && st.seenCond then { st with result := st.result ++ softline ++ grp ch.2, seenThen := true }
+  else if !st.seenThen && st.seenCond then
+    let separator := if continuesCondition c ch.1 then hardline else softline
+    { st with result := st.result ++ separator ++ grp ch.2, seenThen := true }
   else if st.seenElse then { st with result := st.result ++ sp ++ grp ch.2 }
   else st
 
@@ -403,7 +414,7 @@ def blockStep (c : Ctx) (st : BlockSt) (ch : Ch) : BlockSt :=
     if k == .BlockBegin then
       let t := (trailingTrivia c ti).foldl (fun (a : SDoc × Bool) i => (a.1 ++ emitTrivia c i, a.2 || isComment c i))
         (st.openTrivia, st.hasOpenTrivia)
-      { st with result := st.result ++ txt "{", openTrivia := t.1, hasOpenTrivia := t.2, inBody := true }
+      { st with result := emitAll c (leadingTrivia c ti) st.result ++ txt "{", openTrivia := t.1, hasOpenTrivia := t.2, inBody := true }
     else if k == .BlockEnd then
       let r :=
         if !st.body.isEmpty then
@@ -425,6 +436,7 @@ structure ListSt where
   openDoc : SDoc := nil
   closeDoc : SDoc := nil
   foundOpen : Bool := false
+  depth : Nat := 0
 deriving Inhabited
 
 def isOpenDelim (k : Kind) : Bool := k == .ParenBegin || k == .BlockBegin || k == .ArrayBegin
@@ -439,9 +451,11 @@ def listStep (c : Ctx) (st : ListSt) (ch : Ch) : ListSt :=
   match ch.1 with
   | .token ti _ =>
     let k := c.kind ti
-    if isOpenDelim k then { st with openDoc := ch.2, foundOpen := true }
+    if isOpenDelim k && st.foundOpen then listOther { st with depth := st.depth + 1 } ch
+    else if isOpenDelim k then { st with openDoc := ch.2, foundOpen := true }
+    else if isCloseDelim k && st.depth > 0 then listOther { st with depth := st.depth - 1 } ch
     else if isCloseDelim k then { st with closeDoc := ch.2 }
-    else if k == .Comma then
+    else if k == .Comma && st.depth == 0 then
       let st := match st.current with
         | some item => { st with items := st.items ++ [item], current := none }
         | none => st
@@ -468,12 +482,7 @@ def tupleCount (c : Ctx) (cs : List Ch) : Nat × Nat :=
 
 /-- `print_tuple_expr` -/
 def printTupleExpr (c : Ctx) (cs : List Ch) : SDoc :=
-  if tupleCount c cs == (1, 1) then
-    cs.foldl (fun r ch =>
-      let k := tokKind c ch.1
-      if k == some .Comma then r
-      else if k == some .ParenEnd then r ++ txt "," ++ ch.2
-      else r ++ ch.2) nil
+  if tupleCount c cs == (1, 1) then printLeafChildren cs
   else printGroupedList c cs
 
 structure RecSt where
@@ -722,14 +731,19 @@ end
 
 /-! ## `pretty_print` -/
 
-/-- indices of the comments `extract_file_leading_comments` copies: the comments before the first non-trivia token -/
-def fileLeadingComments : Nat → List Kind → List Nat
-  | _, [] => []
-  | i, k :: ks =>
-    if k.isTrivia then
-      if k == .SingleLineComment || k == .MultiLineComment then i :: fileLeadingComments (i + 1) ks
-      else fileLeadingComments (i + 1) ks
+/-- `extract_file_leading_comments`: indices of the comments it copies — the comments of the lines that END before the first
+non-trivia token (`pend` = Rust's `line`, the comments collected since the last line break; a line break commits them, the first syntax token
+discards them: they are leading trivia of that token and printed with it; `Eof` — a file without any token — commits them) -/
+def fileLeadingGo : Nat → List Kind → List Nat → List Nat
+  | _, [], _ => []
+  | i, k :: ks, pend =>
+    if k == .SingleLineComment || k == .MultiLineComment then fileLeadingGo (i + 1) ks (pend ++ [i])
+    else if k == .LineBreak then pend ++ fileLeadingGo (i + 1) ks []
+    else if k == .Eof then pend
+    else if k.isTrivia then fileLeadingGo (i + 1) ks pend
     else []
+
+def fileLeadingComments (i : Nat) (ks : List Kind) : List Nat := fileLeadingGo i ks []
 
 /-- the document `pretty_print` renders, for the green tree `root` -/
 def formatS (kinds : List Kind) (pre : Preparse.Result) (root : Green) : SDoc := cstToDoc ⟨kinds.toArray, pre⟩ root
